@@ -281,6 +281,33 @@ def c12_bounded(tier, seed):
                         br.failures.append({"clause": cl, "witness": {"isa": isa_key, "text": text.splitlines()}, "detail": d})
                     if len(br.samples) < 3:
                         br.samples.append({"isa": isa_key, "text": text.splitlines()})
+        # section switches: a direct jump / conditional jump / call from one section to a label in ANOTHER section (one label, two labels
+        # at the same position, a label after other code of that section): the edge leads to the block of the label
+        for isa_key in ("x64-att",):
+            isa, ff, syntax, cs = ISAS[isa_key]
+            for insn, etype, has_ft in (("jmp", "Branch", False), ("je", "Branch", True), ("call", "Call", True)):
+                for target_shape in ("cold:\nnop", "cold:\ncold2:\nnop", "cold0:\ncold:\nnop", "nop\ncold:\ncold2:\nret", "cold:\n.byte 1\ncold2:\nnop"):
+                    text = "%s cold\nnop\n.section .text.cold,\"ax\"\n%s" % (insn, target_shape)
+                    ir, m, modsym = mk_module(isa, ff)
+                    a = Assembler(m)
+                    br.cases += 1
+                    distinct.add(("xsec", insn, target_shape))
+                    desc = {"isa": isa_key, "text": text.splitlines()}
+                    try:
+                        a.assemble(text, syntax)
+                        res = a.finalize()
+                    except Exception as e:       # noqa
+                        br.failures.append({"clause": "C12/supported-text-assembles", "witness": desc, "detail": "%s: %s" % (type(e).__name__, str(e)[:100])})
+                        continue
+                    cold = [s_ for s_ in res.symbols if s_.name == "cold"]
+                    src = res.text_section.blocks[0]
+                    out = [(e.label.type.name, e.target) for e in res.cfg.out_edges(src)]
+                    ok = len(cold) == 1 and any(t == etype and tg is cold[0].referent for t, tg in out) and (("Fallthrough" in [t for t, _ in out]) == has_ft) and len(out) == (2 if has_ft else 1)
+                    if ok and cold[0].referent not in res.sections[".text.cold"].blocks:
+                        ok = False
+                    if not ok:
+                        br.failures.append({"clause": "C12/direct-edge-leads-to-the-block-of-its-label", "witness": desc,
+                                            "detail": "out-edges of the first block: %s; cold -> %s" % ([(t, type(tg).__name__, getattr(tg, "offset", None)) for t, tg in out], cold and type(cold[0].referent).__name__)})
         # attributes of control-transfer operands that name an EXTERNAL symbol in a position-independent ELF module: the x86 psABIs send
         # every such branch through the PLT, whatever the kind of branch (call, jmp, conditional jump)
         from gtirb_rewriting import _auxdata as _ax
